@@ -63,6 +63,14 @@ CHECKS = {
          "both fetch endiannesses, with trailing bytes; every flipped fixed bit and truncation must be rejected. Extractors are bit selections and acceptance a conjunction of literals, so walking words decide them completely.",
     note="Trusted: amc/ref/fmtlang.py written from the ispec docstring. The x86 ModRM macro is checked against the Intel meaning of /r and /digit.",
     design="DESIGN.md section 3, C03"),
+ "C04": dict(
+    category="model_checking",
+    technique="exhaustive model checking of the built decision trees (every node/edge/leaf: routing and order invariants) + differential decode against a reference most-constrained-first scan on witness words of every spec and every compatible spec pair",
+    text="The equivalence over all byte strings is split into structural invariants checked on every node of all 25 trees (I1: each spec's fixed bits imply its path; I2: every spec once, leaves ordered by "
+         "mask weight then registration order) - which imply that all specs able to accept an input sit in the leaf it reaches, in scan order - and a dynamic part (I3, key computation): tree decode versus "
+         "reference scan on each spec's witness words at exact/longer/truncated lengths, with prefixes, on joint words of all compatible pairs, filler and empty inputs, in ARM/Thumb and both fetch endiannesses.",
+    note="Registration order is read from the spec modules imported before the cpu module sorts them in place (fresh process per mode). Known finding: Thumb with big-endian fetch (tree built for little-endian at import).",
+    design="DESIGN.md section 3, C04"),
  "C08": dict(
     category="model_checking",
     technique="explicit-state exploration of write/copy/restruct/shift/merge histories on the real MemoryMap against a dict byte-store reference",
